@@ -1,7 +1,8 @@
 (* All equivalence proofs between the translated Go functions (Gen/Translated.v) and the hand-written models.
    Each Props/Cxx.v requires only its own file; this one is the whole layer (make Xlate/Tie.vo). *)
 From TarsV Require Xlate.TarsRequestEquiv Xlate.CodecEquiv Xlate.ParseEquiv Xlate.BSWLEquiv Xlate.CheckActiveEquiv
-  Xlate.ReaderEquiv Xlate.ReaderSliceEquiv Xlate.ReqIdEquiv Xlate.SelectEquiv Xlate.ConHashEquiv Xlate.FloatEquiv Xlate.TimeWheelEquiv Xlate.SWRREquiv.
+  Xlate.ReaderEquiv Xlate.ReaderSliceEquiv Xlate.ReqIdEquiv Xlate.SelectEquiv Xlate.ConHashEquiv Xlate.FloatEquiv Xlate.TimeWheelEquiv Xlate.SWRREquiv Xlate.RecvEquiv
+  Xlate.InvokeEquiv Xlate.ReplyEquiv Xlate.TupEquiv Xlate.TupDecodeEquiv.
 
 Print Assumptions TarsRequestEquiv.tr_TarsRequest_equiv.
 Print Assumptions CodecEquiv.tr_WriteHead_equiv.
@@ -44,3 +45,17 @@ Print Assumptions TimeWheelEquiv.tr_tw_After_pos_equiv.
 Print Assumptions SWRREquiv.tr_BSWL_rounds_equiv.
 Print Assumptions SWRREquiv.tr_BSWL_rounds_model.
 Print Assumptions SWRREquiv.tr_BSWL_rounds_positive.
+Print Assumptions RecvEquiv.srv_recv_is_recv_loop.
+Print Assumptions RecvEquiv.cli_recv_is_recv_loop.
+Print Assumptions InvokeEquiv.invoke_queue_timeout_equiv.
+Print Assumptions InvokeEquiv.invoke_base_equiv.
+Print Assumptions InvokeEquiv.invoke_error_equiv.
+Print Assumptions InvokeEquiv.invoke_timeout_equiv.
+Print Assumptions InvokeEquiv.invoke_identity_of_source.
+Print Assumptions ReplyEquiv.tr_doInvoke_reply_equiv.
+Print Assumptions ReplyEquiv.tr_doInvoke_reply_kind.
+Print Assumptions TupEquiv.tr_tup_Encode_head_equiv.
+Print Assumptions TupEquiv.tr_tup_Encode_entry_equiv.
+Print Assumptions TupEquiv.go_tup_encode_equiv.
+Print Assumptions TupDecodeEquiv.tr_tup_Decode_equiv.
+Print Assumptions TupDecodeEquiv.tr_tup_Decode_fresh.
